@@ -12,7 +12,8 @@ The line protocol is documented in `docs/proto_cw3flex.md` (and at the top of `h
 namespace CwPlus.Driver.Cw3Flex
 open CwPlus Wire Driver CwPlus.Cw3 CwPlus.Cw3Core CwPlus.Cw3Flex
 
-def DENOMS : List String := ["ucosm", "uatom"]
+/-- `UCOSM`: a coin that differs from `ucosm` only in letter case (bank denoms are case sensitive). -/
+def DENOMS : List String := ["ucosm", "uatom", "UCOSM"]
 def FUEL : Nat := 4000
 
 structure MState where
@@ -166,7 +167,7 @@ def obsOf (m : MState) : Args :=
       insertNat (e.2.startHeight + 1) (insertNat e.2.startHeight (insertNat (e.2.startHeight - 1) acc))) []
     let snap := heights.map fun h =>
       s!"{h}|{Cw4Group.queryTotalWeight g (some h)}|{"|".intercalate (u.map fun a => s!"{a}:{optNatStr (memberAt g a h)}")}"
-    let bank := u.map fun a => s!"{a}:{balance w a "ucosm"}:{balance w a "uatom"}"
+    let bank := u.map fun a => s!"{a}:{balance w a "ucosm"}:{balance w a "uatom"}:{balance w a "UCOSM"}"
     let cw20 := u.map fun a => s!"{a}:{Cw20.bal w.token a}"
     let allow := m.pool.map fun o => s!"{o}:{((w.token.allow.get? (o, m.flex)).getD Cw20.Allowance.default).amount}"
     [("thr", thr), ("cfg", cfg), ("props", props), ("rprops", rprops), ("pprops", joinC pprops), ("raw", joinC raw),
@@ -216,9 +217,8 @@ def buildWorld (m : MState) (a : Args) : Res World := do
   let owner := m.pool.headD ""
   let bank : AMap (Addr × String) Nat := (a.list "bank").foldl (fun acc e =>
     match e.splitOn ":" with
-    | [ad, x, y] =>
-      let acc := if x.toNat?.getD 0 != 0 then acc.set (ad, "ucosm") (x.toNat?.getD 0) else acc
-      if y.toNat?.getD 0 != 0 then acc.set (ad, "uatom") (y.toNat?.getD 0) else acc
+    | ad :: vals =>
+      (DENOMS.zip vals).foldl (fun acc (d, v) => if v.toNat?.getD 0 != 0 then acc.set (ad, d) (v.toNat?.getD 0) else acc) acc
     | _ => acc) []
   let token ← Cw20.instantiate
     { name := "Deposit", symbol := "DEP", decimals := 6,
@@ -428,7 +428,7 @@ def resyncOf (m : MState) (o : Args) : Option MState :=
                             log := match old with | some w => w.log | none => [] } }
 where parseBankRec (s : String) : List ((String × String) × Nat) :=
   match s.splitOn ":" with
-  | [a, x, y] => [((a, "ucosm"), x.toNat?.getD 0), ((a, "uatom"), y.toNat?.getD 0)]
+  | a :: vals => (DENOMS.zip vals).map fun (d, v) => ((a, d), v.toNat?.getD 0)
   | _ => []
 
 /-! ## Monitors: the properties' own predicates, evaluated on implementation observations -/
@@ -505,10 +505,10 @@ def parseSnap (s : String) : Option SObs :=
       | _ => (e, none)⟩
   | _ => none
 
-/-- `addr:ucosm:uatom` -/
+/-- `addr:ucosm:uatom:UCOSM` (one amount per entry of `DENOMS`; older traces carry two) -/
 def parseBank (s : String) : List ((String × String) × Nat) :=
   match s.splitOn ":" with
-  | [a, x, y] => [((a, "ucosm"), x.toNat?.getD 0), ((a, "uatom"), y.toNat?.getD 0)]
+  | a :: vals => (DENOMS.zip vals).map fun (d, v) => ((a, d), v.toNat?.getD 0)
   | _ => []
 
 structure Obs where
